@@ -107,7 +107,14 @@ func ckpt(out *c07Out, what string, f func() []byte) (d []byte) {
 			d = nil
 		}
 	}()
-	return f()
+	d = f()
+	// a digest stays what it is while the caller holds it: other digests are computed in between (a validator collects the
+	// digests of everything pending before it signs, queries compute digests concurrently) - the value is compared afterwards
+	gid := []byte("decoy-gravity-id")
+	_ = (&mhubtypes.SignerSetTx{Nonce: 77, Signers: mhubtypes.ExternalSigners{{Power: 5, ExternalAddress: EthHub}}}).GetCheckpoint(gid)
+	_ = (&mhubtypes.BatchTx{BatchNonce: 78, ExternalTokenId: EthHub, Timeout: 9}).GetCheckpoint(gid)
+	_ = (&mhubtypes.ContractCallTx{InvalidationNonce: 79, InvalidationScope: []byte("decoy"), Address: EthHub, Payload: []byte("p"), Timeout: 3}).GetCheckpoint(gid)
+	return d
 }
 
 func refCallDigest(gid []byte, c *mhubtypes.ContractCallTx) []byte {
@@ -462,7 +469,7 @@ func init() {
 			}
 			out.Evidence = map[string]interface{}{"level": "exploration", "coverage": map[string]interface{}{
 				"evaluations": r.evals, "distinct_nontrivial": r.distinct,
-				"rule":        "Cartesian grid of shapes: gravity id length {0,1,16,31,32}; nonces/timeouts {0,1,2^32,2^63-1}; member lists of 0..4 members over powers {0,1,2^32-1} (all assignments up to 3 members); batches of {0,1,2,3,100} transfers with amounts/fees {0,1,2^255,2^256-1}; contract calls with payload length {0,1,31,32,33,64}, 0..2 tokens/fees, scope length {0,1,32}. Each shape: GetCheckpoint == keccak(independent ABI encoding). Signature grid 4 keys x 4 digests x 2 v-conventions against all (key,digest). EVM: real Hub2 bytecode accepts validator signatures over the hub digest for updateValset/submitBatch/submitLogicCall and reverts for a flipped digest bit, changed data, foreign key. Every evaluation is a distinct tuple.",
+				"rule":        "Cartesian grid of shapes: gravity id length {0,1,16,31,32}; nonces/timeouts {0,1,2^32,2^63-1}; member lists of 0..4 members over powers {0,1,2^32-1} (all assignments up to 3 members); batches of {0,1,2,3,100} transfers with amounts/fees {0,1,2^255,2^256-1}; contract calls with payload length {0,1,31,32,33,64}, 0..2 tokens/fees, scope length {0,1,32}. Each shape: GetCheckpoint == keccak(independent ABI encoding), compared after three other digests have been computed (a digest handed out stays what it is). Signature grid 4 keys x 4 digests x 2 v-conventions against all (key,digest). EVM: real Hub2 bytecode accepts validator signatures over the hub digest for updateValset/submitBatch/submitLogicCall and reverts for a flipped digest bit, changed data, foreign key. Every evaluation is a distinct tuple.",
 				"samples":     r.samples, "evm_calls": r.evm, "exhaustive": true,
 			}, "assumptions": []string{"Hub2 bytecode = module/solidity/Hub2.go (Hub2MetaData.Bin); no solc in the sandbox to recompile Hub2.sol", "uint64 fields >= 2^63 are unreachable counters and excluded", "'for no other address or digest' is decided over the finite key/digest grid"}}
 			out.Summary = fmt.Sprintf("evaluations=%d evm=%v violations=%d (%s)", r.evals, r.evm, len(out.Violations), time.Since(start).Round(time.Millisecond))
